@@ -58,6 +58,7 @@ pub fn run_trace(trace: &Trace) -> RunReport {
                 &seq::SeqOpts {
                     oracles: true,
                     want_final: false,
+                    no_hooks: false,
                 },
             )
             .report
@@ -155,6 +156,34 @@ fn main() {
             }
             println!("miri scenarios {}..{} of {} done, {} problems", from, to, pop, bad);
             std::process::exit(if bad > 0 { 1 } else { 0 });
+        }
+        "inert" => {
+            // mmsim inert <population> <seed> <from> <to>: every fault-free sequential history
+            // is executed with and without the hooks object installed; the results of all
+            // operations and the final physical state must be identical.
+            let pop = args.get(2).map(|s| s.as_str()).unwrap_or("seq-mixed").to_string();
+            let seed: u64 = args.get(3).and_then(|s| s.parse().ok()).unwrap_or(1);
+            let from: u64 = args.get(4).and_then(|s| s.parse().ok()).unwrap_or(0);
+            let to: u64 = args.get(5).and_then(|s| s.parse().ok()).unwrap_or(1000);
+            let (mut compared, mut differ) = (0u64, 0u64);
+            for run in from..to {
+                let t = generate(&pop, seed, run);
+                if t.engine != Engine::Seq
+                    || t.threads.iter().flatten().any(|o| o.f.any())
+                    || t.callback_faults != Default::default()
+                {
+                    continue;
+                }
+                let a = seq::run_seq(&t, &BTreeSet::new(), &seq::SeqOpts { oracles: false, want_final: true, no_hooks: false });
+                let b = seq::run_seq(&t, &BTreeSet::new(), &seq::SeqOpts { oracles: false, want_final: true, no_hooks: true });
+                compared += 1;
+                if a.report.state_hash != b.report.state_hash || a.results != b.results || a.final_norm != b.final_norm {
+                    differ += 1;
+                    println!("INERT-DIFF {} {} {}", pop, seed, run);
+                }
+            }
+            println!("inert: {} fault-free histories of {} compared with/without hooks, {} differ", compared, pop, differ);
+            std::process::exit(if differ > 0 { 1 } else { 0 });
         }
         "gen" => {
             let pop = gen_pop(&args);
